@@ -26,6 +26,7 @@ type Clause struct {
 	Label  string
 	File   string
 	Line   int
+	Hypothesis bool // requires clause that states a hypothesis of the property (input/environment): assumed at entry, not checked at call sites, reported as assumption
 }
 
 type FuncContract struct {
@@ -71,6 +72,7 @@ type SpecFunc struct {
 	Body   Expr
 	Text   string
 	File   string
+	Macro  bool // expanded at each use in the caller's state (may read the heap)
 }
 
 type Lemma struct {
@@ -121,7 +123,7 @@ type Contracts struct {
 	Errors []string
 }
 
-var clauseRe = regexp.MustCompile(`^(requires|ensures|xensures|invariant|decreases|assert|assume|modifies|trusted|pure|inline|noinline|nullable|maypanic|nopanic|let|set|init|specialize|assign)\b(\[[A-Za-z0-9, ]*\])?\s*(.*)$`)
+var clauseRe = regexp.MustCompile(`^(requires|hypothesis|ensures|xensures|invariant|decreases|assert|assume|modifies|trusted|pure|inline|noinline|nullable|maypanic|nopanic|let|set|init|specialize|assign)\b(\[[A-Za-z0-9, ]*\])?\s*(.*)$`)
 var topRe = regexp.MustCompile(`^(func|ghost|spec|axiom|lemma|iface|only|maprange)\b(\[[A-Za-z0-9, ]*\])?\s*(.*)$`)
 
 func parseProps(s string) []string {
@@ -382,6 +384,10 @@ func (cs *Contracts) parseFile(fname, pkg, prefix string) {
 		case "requires":
 			parse(rest)
 			cur.Requires = append(cur.Requires, c)
+		case "hypothesis":
+			parse(rest)
+			c.Hypothesis = true
+			cur.Requires = append(cur.Requires, c)
 		case "ensures":
 			parse(rest)
 			cur.Ensures = append(cur.Ensures, c)
@@ -487,6 +493,11 @@ func (cs *Contracts) parseFile(fname, pkg, prefix string) {
 func parseSpecFunc(s string) (*SpecFunc, error) {
 	// func NAME(p T, q T) T [= expr]
 	s = strings.TrimSpace(s)
+	macro := false
+	if strings.HasPrefix(s, "macro ") {
+		macro = true
+		s = "func " + strings.TrimSpace(s[6:])
+	}
 	if !strings.HasPrefix(s, "func ") {
 		return nil, fmt.Errorf("spec needs 'func': %q", s)
 	}
@@ -495,7 +506,7 @@ func parseSpecFunc(s string) (*SpecFunc, error) {
 	if i < 0 {
 		return nil, fmt.Errorf("spec func: missing '(' in %q", s)
 	}
-	sf := &SpecFunc{Name: strings.TrimSpace(s[:i])}
+	sf := &SpecFunc{Name: strings.TrimSpace(s[:i]), Macro: macro}
 	j := strings.Index(s, ")")
 	params := s[i+1 : j]
 	for _, p := range strings.Split(params, ",") {
